@@ -91,9 +91,9 @@ CHECKS = [
   "the reference interpreter's choices where the language reference is silent are listed in engine/mtl/ASSUMPTIONS.md; timestamps are C07's subject",
   "exhaustive bounded program and input enumeration against an independent reference interpreter", "§3 C01"),
  ("C04", "mtlgen", "exploration",
-  "every compiler-accepted program among: the typed families of C01; statements in context (every binary operator between 14 atoms, unary forms, constant trees, every builtin with 0-3 arguments from 17 argument forms) x 3 (thorough 5) placements (about 45 000 accepted quick, 106 000 thorough); 5 accepted-but-odd programs; the example programs over the first 60 lines of every test log; each run over its line alphabet twice with HardCrash set: no panic, and every runtime error is one of the VM's explicit checked conditions (message classes)",
-  "dynamic check only: the static abstract interpretation of the emitted bytecode planned in DESIGN.md §3 C04 is not built; faults are classified by error message",
-  "exhaustive bounded program and input enumeration on the real compiler and VM with a fault classifier", "§3 C04"),
+  "every compiler-accepted program among: the typed families of C01; statements in context (every binary operator between 14 atoms, unary forms, constant trees, every builtin with 0-3 arguments from 17 argument forms) x 3 (thorough 5) placements (about 45 000 accepted quick, 106 000 thorough); 5 accepted-but-odd programs; the example programs over the first 60 lines of every test log; (dynamic) each run over its line alphabet twice with HardCrash set: no panic, every runtime error is one of the VM's explicit checked conditions (message classes); (static) explicit-state exploration of every reachable (program counter, abstract stack) state of each accepted program's bytecode (about 1.9 million abstract states thorough), abstract values = the run-time representations the VM distinguishes, transfer functions mirroring what vm.execute accepts: no stack underflow, no operand of a representation the instruction does not accept, jump targets and table operands in range",
+  "the static part covers all inputs of each program but only the enumerated programs; its transfer functions are a hand-written mirror of vm.execute (typed pops, type assertions, datum accessors) and must follow changes to it; dynamic faults are classified by error message",
+  "exhaustive bounded program enumeration; per program explicit-state model checking of the bytecode's abstract state space plus execution on the real VM with a fault classifier", "§3 C04"),
  ("C23", "mtlgen", "exploration",
   "every checker-accepted program among: the typed families of C01; a format family (every declaration kind x hidden x as-renaming x 0-2 keys x limit x bucket lists incl. 1e-7 and 1e9 boundaries; string literals over {a, escaped quote, escaped backslash, \\n escape, blank} up to length 3 as values and index keys; 10 regexes with slashes/escapes in 4 positions; every pair of 11 arithmetic/bitwise operators with each explicit parenthesisation and none, against relational and logical operators; del/del-after, multi-key indexing, decorators, else/otherwise/stop, unary ~, small and negative literals, builtins); the example programs (about 6 200 programs): parse -> check -> unparse -> parse gives a structurally equal syntax tree (reflection over every exported field of the ast node types except positions, symbols, scopes, types), and formatting the result again gives identical text",
   "the comparison is on unchecked parse trees (the checker's inserted conversions are not syntax)",
